@@ -90,3 +90,9 @@ claim("C24", "exploration",
       "Generated models (+ - * / ^, unary minus, der, sin/cos/tan, time, nested parenthesised sub-expressions, sub-component dotted names, names colliding with Python builtins / mangled names, discrete variables) are translated by the real SymPy generator; the module must compile and execute, every entry of eqs is evaluated numerically by substitution and compared with lhs-rhs of the flat equation, the six lists are compared with the flat classification as duplicate-free sets and distinct variables must have distinct symbols.",
       "compute_fg is stubbed; names are compared modulo the backend's mangling; list order not compared",
       "DESIGN.md section 4, C24")
+
+claim("C25", "exploration",
+      "lock-step structural monitor: XML output (parsed with xml.etree) vs the flat class from tree.flatten",
+      "Generated models with unary/n-ary operators, 1- and 2-argument calls, der, literals (incl. strings with XML metacharacters and signed numbers), dotted names and every variability are translated by the real XML generator; the output must be well-formed, contain one component per flat symbol with name/builtin/variability/literal start and value, and one equal element per flat equation whose element tree matches the flat expression node for node and operand for operand, in order.",
+      "the flat model is tree.flatten of a fresh parse; schema validation impossible offline",
+      "DESIGN.md section 4, C25")
